@@ -74,6 +74,18 @@ CHECKS = {
  "C31": dict(engine=B, technique="stateless deviation-bounded exploration of the rejected third timed post vs the new timer thread on a virtual clock",
    text="An ActiveObject subclass with room for two timed sources; the third timed post (deferred or not, fifo/lifo, one-shot/periodic) must raise ActiveObjectOutOfPostedEventResources, its event must never be appended, the two tracked sources keep the C10 schedule; every schedule of the caller vs the timer threads with <= 1 (quick) / 2 (thorough) deviations.",
    note="Capacity reduced through the subclass attribute QUEUE_SIZE = 2.", ref="6/C31"),
+ "C06": dict(engine=B, technique="explicit-state BFS over subscribe/publish sequences on the real fabric (delivery threads run under the controlled scheduler) vs a set model, plus stateless preemption-bounded exploration of concurrent subscribe/publish",
+   text="(a) BFS to depth 5 (quick) / 6 (thorough) over {start, subscribe(3 queues x 2 signals x 2 kinds), publish(2 signals)} on the real ActiveFabric - two of the queues are distinct but equal plain deques, one is a LockingDeque; the real delivery threads run to quiescence after every operation; states are deduplicated on (started, real registry by queue identity, queue contents) and every transition compares the per-queue multiset of delivered events with a set model (exactly once per kind, nobody else, re-subscription changes nothing). (b) 6-9 harnesses with two or three threads subscribing/publishing at once against the running delivery threads, every schedule with <= 1-2 preemptions at line granularity of the fabric code; a publication invoked after a subscribe call returned must reach that queue exactly once, a final publication after all calls returned must reach exactly the subscribed queues.",
+   note="Delivery order is not part of C06 (C08/C09). A publication overlapping a subscribe call may or may not reach that queue.", ref="6/C06"),
+ "C07": dict(engine=B, technique="exhaustive enumeration of the active-object publish/subscribe configuration matrix on real active objects under the controlled scheduler, plus preemption-bounded exploration of the publication window",
+   text="The full matrix {spied/plain subscriber} x {spied/plain publisher} x {subscribe before start_at, after it from outside, from a handler, by signal number} x {publish from outside, from a handler, before the publisher's start_at, by the subscriber itself} x {no prior subscriber, another object on the same signal, same object other kind} x {fifo, lifo, default} (448 configurations) is run on real ActiveObjects, fabric and delivery threads under the default schedule; ~100 of them additionally under every schedule with <= 1 preemption (2 for a subset, thorough) of the publication window. Oracle: the subscriber dispatches the publication exactly once per subscription kind, the earlier subscriber exactly once, objects that never subscribed never.",
+   note="The subscription is settled before the publication is made; a publication racing its own subscription is not constrained.", ref="6/C07"),
+ "C08": dict(engine=B, technique="exhaustive enumeration of publish sequences under total delivery lag + stateless preemption-bounded exploration of publishers racing the delivery threads; put/get log replayed on a stable priority queue",
+   text="(a) every publish sequence of length <= 4 (quick) / 5 (thorough; plus runs of 6-8 equal/mixed priorities) over priorities {1, 2, default} x 2 signals, published before start() and to a started fabric whose delivery threads have not run yet, with three subscribers: subscriber contents must equal the stable sort by priority. (b) one or two publisher threads racing both delivery threads, every schedule with <= 1-2 preemptions: at every get of a fabric queue the item must have the smallest priority number waiting and no waiting item of the same priority may have been published before it; the subscriber holds exactly what its delivery thread took, in that order.",
+   note="Two overlapping publish calls from different threads may be ordered either way.", ref="6/C08"),
+ "C09": dict(engine=B, technique="stateless preemption-bounded exploration of fabric deliveries into a real active object's queue whose consumer is parked in a gated handler; reference deque replay",
+   text="An active object subscribed fifo / lifo / default / both ways (before or after start_at) has 0-2 pending events while its consumer waits inside a gated handler; the bare fabric or another active object publishes 1-2 events while a poster posts one more; every schedule with <= 1 (2 for some, thorough) preemptions. Oracle: each delivery uses the front (lifo) or the back (fifo) of the real deque, and both the pending queue and the dispatch order after the gate opens equal the replay of the same history as post_lifo/post_fifo calls on a reference deque.",
+   note="Front = the end the consumer pops from.", ref="6/C09"),
 }
 NOT_YET = "check not built yet in this round (planned, see DESIGN.md section 6)"
 
